@@ -137,3 +137,31 @@ theorem isTopo_sound (order : List Net) (h : isTopo order = true) : Topo order o
   isTopoFrom_sound order order [] h
 
 end Pyrtl
+
+namespace Pyrtl
+
+theorem isTopoFastFrom_eq (driven : Std.HashSet Nat) (drivenL : List Nat)
+    (hd : ∀ x, driven.contains x = drivenL.contains x) :
+    ∀ (ns : List Net) (done : Std.HashSet Nat) (doneL : List Nat),
+      (∀ x, done.contains x = doneL.contains x) →
+      isTopoFastFrom driven ns done = isTopoFrom drivenL ns doneL := by
+  intro ns
+  induction ns with
+  | nil => intro _ _ _; rfl
+  | cons n ns ih =>
+    intro done doneL h
+    simp only [isTopoFastFrom, isTopoFrom]
+    rw [ih (done.insert n.dest) (n.dest :: doneL) (by
+      intro x
+      rw [Std.HashSet.contains_insert, List.contains_cons, h x]
+      have : (n.dest == x) = (x == n.dest) := BEq.comm
+      rw [this])]
+    simp only [h, hd]
+
+/-- the linear-time checker the driver runs is the checker `isTopo_sound` is about -/
+theorem isTopoFast_eq (order : List Net) : isTopoFast order = isTopo order := by
+  unfold isTopoFast isTopo
+  exact isTopoFastFrom_eq _ _ (fun x => Std.HashSet.contains_ofList) order {} []
+    (fun x => by simp)
+
+end Pyrtl
